@@ -751,7 +751,7 @@ def gen_c12(rng: random.Random, kind: str, P: Optional[dict] = None) -> dict:
         ncall = 1 if kind == "method1" else rng.choice([2, 2, 3])
         for _ in range(ncall):
             cb = g.calls(0, 1, 0.2)
-            cb.insert(rng.randint(0, len(cb)), {"k": "call", "m": mn, "en": g.maybe_inp(0.35), "arg": None})
+            cb.insert(rng.randint(0, len(cb)), {"k": "call", "m": mn, "en": g.maybe_inp(0.5), "arg": None})
             g.items.append({"k": "trans", "name": g.tname(), "ready": g.maybe_inp(P["p_parent_ready"]), "block": cb})
     if rng.random() < 0.3:  # an unrelated bystander transaction
         g.items.append({"k": "trans", "name": g.tname(), "ready": g.maybe_inp(0.8), "block": g.calls(0, 2, 0.3)})
